@@ -141,6 +141,12 @@ def getitem(interp, st, base, idx, node=None):
 
 def arr_getitem(interp, st, a: Arr, idx, node):
     M = _M()
+    if isinstance(idx, Arr) and idx.kind == "bool" and idx.ndim == 1 and a.ndim >= 1 and idx.shape[0] == a.shape[0]:
+        # boolean row mask: the rows whose mask bit holds, in order
+        items = [(g, r) for g, r in zip(idx.flat, a.rows() if a.ndim > 1 else a.flat)]
+        if a.ndim == 2:
+            return M.Rows(GList(items), a.shape[1])
+        return GList(items)
     if not isinstance(idx, tuple):
         idx = (idx,)
     if any(x is Ellipsis for x in idx):
@@ -596,6 +602,17 @@ def comprehension(interp, st, node, kind):
     if gen.is_async:
         raise Outside("async comprehension", node)
     it = interp.ev(gen.iter, st)
+    if isinstance(it, CSet) and kind == "set" and not gen.ifs:
+        # {f(x) for x in s}: supported when f is the identity on integer tuples (e.g. tuple(int(v) for v in x))
+        key = tuple(z3.Int(V.fresh_name("e")) for _ in range(it.arity))
+        saved0 = dict(st.env)
+        interp.assign(gen.target, key, st)
+        val = interp.ev(node.elt, st)
+        st.env.clear()
+        st.env.update(saved0)
+        if isinstance(val, tuple) and len(val) == len(key) and all(is_sym(a) and a.eq(b) for a, b in zip(val, key)):
+            return it
+        raise Outside("set comprehension over a set with a non-identity element", node)
     seq = iter_values(interp, st, it, node)
     saved = dict(st.env)
     try:
